@@ -186,7 +186,7 @@ def parse_line(line):
     head, _, tail = line.partition(";")
     toks = head.split()
     name = toks[0] if toks else ""
-    wires = [int(t) for t in toks[1:]]
+    wires = [int(t) if t.lstrip('-').isdigit() else t for t in toks[1:]]
     params = []
     for t in tail.split():
         try:
